@@ -333,7 +333,7 @@ inductive Policy | never | always | try_ | tryOnce
 
 inductive FcOut
   | data (bytes : List Nat)   -- the bytes from `pos` to the end of the cache block
-  | nodata
+  | nodata                    -- refused: the block lies behind the end of the file (`KDUMP_ERR_EOF`)
   deriving DecidableEq, Repr
 
 /-- the file as the kernel shows it: its bytes, zero beyond the end -/
@@ -345,9 +345,11 @@ def getMmap (file : List Nat) (pgsz mmapsz pos : Nat) : FcOut :=
   if pos / pgsz * pgsz ≥ file.length then .nodata
   else .data ((List.range (mmapsz - pos % mmapsz)).map fun j => fileByte file (pos + j))
 
-/-- `fcache_get_read`: `pread` of one page, zero-filled -/
+/-- `fcache_get_read`: a block that lies wholly behind the end of the file is refused (`KDUMP_ERR_EOF`), except block 0;
+otherwise `pread` of one page, zero-filled -/
 def getRead (file : List Nat) (pgsz pos : Nat) : FcOut :=
-  .data ((List.range (pgsz - pos % pgsz)).map fun j => fileByte file (pos + j))
+  if 0 < pos / pgsz * pgsz ∧ pos / pgsz * pgsz ≥ file.length then .nodata
+  else .data ((List.range (pgsz - pos % pgsz)).map fun j => fileByte file (pos + j))
 
 /-- `fcache_get`: returns the policy afterwards (`TRY_ONCE` settles) and the outcome -/
 def fcacheGet (file : List Nat) (pgsz mmapsz : Nat) (pol : Policy) (pos : Nat) : Policy × FcOut :=
